@@ -176,3 +176,9 @@ package retry
 //@ spec func staleCmdKind() string { return BoStaleCmd.name }
 // the name under which region-scheduling back-offs (no leader / leadership still moving) are accounted
 //@ spec func regionSchedulingKind() string { return BoRegionScheduling.name }
+// names of further back-off kinds (for contracts of other packages)
+//@ spec func diskFullKind() string { return BoTiKVDiskFull.name }
+//@ spec func tikvBusyKind() string { return BoTiKVServerBusy.name }
+//@ spec func tiflashBusyKind() string { return BoTiFlashServerBusy.name }
+//@ spec func maxTsKind() string { return BoMaxTsNotSynced.name }
+//@ spec func notInitKind() string { return BoMaxRegionNotInitialized.name }
